@@ -162,8 +162,8 @@ def fits(stmts, pn: int, pp: int, pd: int) -> bool:
         else:
             if a > pp or b > pn:
                 return False
-        if pd != 0 and c > pd:
-            return False
+        if c > pd:
+            return False  # also: a typed literal cannot be written at all with a disabled datatype table
     return True
 
 
